@@ -211,6 +211,9 @@ class Machine:
         saved = list(r)
         mem = self.mem
         lo_stack = self.STACK_TOP - 0x800
+        # nothing may leak from one run into the next: the frame starts as junk, so a frame word that is read before it was
+        # written yields the same wrong value on every run (and in the replay), not the previous case's data
+        mem[lo_stack:sp0] = b"\xA5\x5A\xC3\x3C" * ((sp0 - lo_stack) // 4)
         n = z = c = v = False
         code = self.p.routines[symbol]
         pc = 0
